@@ -64,6 +64,12 @@ HISTORY = {
     "C10-6": "missed at first (the low-rank MCLMC preset was not among the protocol cases): preset added",
     "C12-5": "caught by the protocol tie (the first command poll moved before initialisation is not an enabled transition of the model)",
     "C17-6": "caught by the bit-exact kernel tie",
+    "C02-7": "same idea as C02-2 in the draw-only kernel (fourth round): caught as built",
+    "C02-8": "missed at first (no re-initialisation from a gradient on an adapted low-rank transformation): variant added + self-consistency oracle on what the transformation reports (scales, retained eigenvalues, log-determinant)",
+    "C03-7": "caught as built (mindepth above maxdepth is among the generated options)",
+    "C05-7": "same idea as C05-3 (fourth round): caught by the tie",
+    "C08-7": "C08 itself stays silent (its closed loop never follows a correlated window by an uncorrelated one); caught by C02 (tie and, after the rank-0 update variant was added, the self-consistency oracle)",
+    "C09-7": "caught as built (window of the low-rank estimator after a switch)",
 }
 
 
